@@ -201,7 +201,21 @@ var c08Patterns = []string{"||example.org^", "example", "|http://example.org/", 
 
 func c08Mutate(t *rapid.T, m NetModel) NetModel {
 	y := m
-	switch rapid.IntRange(0, 10).Draw(t, "mutation") {
+	switch rapid.IntRange(0, 11).Draw(t, "mutation") {
+	case 11:
+		// $match-case against $~match-case (or nothing against $~match-case): another rule
+		y.MC = false
+		if !inList("~match-case", m.Extra) {
+			y.Extra = append(append([]string{}, m.Extra...), "~match-case")
+		} else {
+			y.MC = !m.MC
+			y.Extra = nil
+			for _, e := range m.Extra {
+				if e != "~match-case" {
+					y.Extra = append(y.Extra, e)
+				}
+			}
+		}
 	case 10:
 		// one more excluded content type: another rule, even when it matches the same requests ($script vs $script,~image)
 		ty := pick(t, "type-", typeNames)
